@@ -30,9 +30,31 @@ def reachable(cg, entry):
     return seen
 
 
-def run_rules(tree, funcs, emit_for):
+def propagate_param_sets(cg, funcs, sets):
+    """Parameters that receive a set-kinded argument at some call site are set-kinded in the callee (two rounds)."""
+    purity.PARAM_SETS.clear()
+    if cg is None:
+        return
+    for _ in range(2):
+        for callee, sites in cg.call_sites().items():
+            cfn = cg.funcs.get(callee)
+            if cfn is None:
+                continue
+            params = [a.arg for a in cfn.args.args]
+            for caller_fn, call in sites:
+                offset = 1 if ('.' in callee and callee.split('.')[0] in cg.facts.classes and params and params[0] in ('self', 'cls')) else 0
+                for i, a in enumerate(call.args):
+                    if i + offset < len(params) and purity.set_kinded(a, caller_fn, sets):
+                        purity.PARAM_SETS.setdefault(id(cfn), set()).add(params[i + offset])
+                for kw in call.keywords:
+                    if kw.arg in params and purity.set_kinded(kw.value, caller_fn, sets):
+                        purity.PARAM_SETS.setdefault(id(cfn), set()).add(kw.arg)
+
+
+def run_rules(tree, funcs, emit_for, cg=None):
     mut = purity.module_level_mutables(tree)
     sets = {k for k, v in mut.items() if v == 'set'}
+    propagate_param_sets(cg, funcs, sets)
     for q, fn in funcs.items():
         purity.check_function(q, fn, mut, sets, lambda rule, node, msg, q=q: emit_for(q, rule, node, msg))
 
@@ -79,7 +101,7 @@ def run(repo, tier):
         while stmt is not None and not isinstance(stmt, ast.stmt) and getattr(stmt, '_parent', None) is not None:
             stmt = stmt._parent
         rep.fail(Finding(rule, q, stmt if isinstance(stmt, ast.AST) else node, msg, line=getattr(node, 'lineno', None)), instance='{} {}'.format(q, unparse(node)[:50]))
-    run_rules(repo.asm, funcs, emit)
+    run_rules(repo.asm, funcs, emit, cg)
     for rule in RULES:
         if rule not in hits:
             rep.ok(rule, 'no instance in the {} functions reachable from assemble()'.format(len(funcs)))
